@@ -207,7 +207,12 @@ def update_chain(p, ci):
     seen = set()
     while f is not None and id(f.node) not in seen and not is_abstract(f):
         seen.add(id(f.node))
-        out.append(f)
+        # normal form: extracted per-sample procedures (`_adapt(self, s)`) are inlined back
+        from ..astutil import inline_statement_calls
+        from ..index import FuncInfo
+        nf = FuncInfo(f.name, inline_statement_calls(p, f), f.module, cls=f.cls, parent=f.parent)
+        nf.qual = f.qual
+        out.append(nf)
         calls_super = any(isinstance(n, ast.Call) and isinstance(n.func, ast.Attribute) and n.func.attr == "update"
                           and isinstance(n.func.value, ast.Call) and isinstance(n.func.value.func, ast.Name)
                           and n.func.value.func.id == "super" for n in ast.walk(f.node))
@@ -491,16 +496,17 @@ def check_transitions(p, report, pairs, rule):
                     if isinstance(x, ast.Attribute) and isinstance(x.ctx, ast.Store) and isinstance(x.value, ast.Name) \
                             and x.value.id == "self":
                         committed.add(x.attr)
-            qn = inline_temporaries(q.node, keep=lambda a: isinstance(a.value, ast.Attribute)
-                                    and isinstance(a.value.value, ast.Name) and a.value.value.id == "self"
-                                    and a.value.attr in committed)
+            from ..astutil import nest_guard_clauses
+            qn = nest_guard_clauses(inline_temporaries(q.node, keep=lambda a: isinstance(a.value, ast.Attribute)
+                                                       and isinstance(a.value.value, ast.Name) and a.value.value.id == "self"
+                                                       and a.value.attr in committed))
             Ln = c04.instance_loop(qn)
             if Ln is None:
                 continue
             sctx = transition_contexts(qn, {tmp}, c04.seeds_of(qn), within=Ln)
             cctx = {}
             for u in ups:
-                for k, v in transition_contexts(inline_temporaries(u.node), {"self." + attr}, {}).items():
+                for k, v in transition_contexts(nest_guard_clauses(inline_temporaries(u.node)), {"self." + attr}, {}).items():
                     cctx.setdefault(k, set()).update(v)
             for k in sorted(set(sctx) & set(cctx)):
                 same = sctx[k] == cctx[k]
@@ -551,9 +557,10 @@ def check_accounting_is_granting(p, report, rule="R10.7"):
                 if isinstance(x, ast.Attribute) and isinstance(x.ctx, ast.Store) and isinstance(x.value, ast.Name) \
                         and x.value.id == "self":
                     committed.add(x.attr)
-        fnode = inline_temporaries(f.node, keep=lambda a: isinstance(a.value, ast.Attribute)
-                                   and isinstance(a.value.value, ast.Name) and a.value.value.id == "self"
-                                   and a.value.attr in committed)
+        from ..astutil import nest_guard_clauses
+        fnode = nest_guard_clauses(inline_temporaries(f.node, keep=lambda a: isinstance(a.value, ast.Attribute)
+                                                      and isinstance(a.value.value, ast.Name) and a.value.value.id == "self"
+                                                      and a.value.attr in committed))
         L = c04.instance_loop(fnode)
         if L is None:
             continue
